@@ -68,6 +68,9 @@ func GoLiteral(v interface{}, kind string) interface{} {
 	if kind == "" {
 		return v
 	}
+	if kind == "deep" {
+		return deepKinds(v)
+	}
 	var rv reflect.Value
 	switch x := v.(type) {
 	case int64:
@@ -91,6 +94,38 @@ func GoLiteral(v interface{}, kind string) interface{} {
 		panic("GoLiteral: unknown kind " + kind)
 	}
 	return rv.Convert(t).Interface()
+}
+
+// deepKinds rewrites the numbers inside a container literal into narrower Go kinds of the same
+// value (int32, uint32, float32) where the conversion is exact.
+func deepKinds(v interface{}) interface{} {
+	switch x := v.(type) {
+	case int64:
+		if int64(int32(x)) == x {
+			return int32(x)
+		}
+	case uint64:
+		if uint64(uint32(x)) == x {
+			return uint32(x)
+		}
+	case float64:
+		if float64(float32(x)) == x && x != 0 {
+			return float32(x)
+		}
+	case []interface{}:
+		a := make([]interface{}, len(x))
+		for i, e := range x {
+			a[i] = deepKinds(e)
+		}
+		return a
+	case map[string]interface{}:
+		m := make(map[string]interface{}, len(x))
+		for k, e := range x {
+			m[k] = deepKinds(e)
+		}
+		return m
+	}
+	return v
 }
 
 // BadLiteral is a value clover cannot normalise.
